@@ -44,6 +44,8 @@ structure St where
   watches : List Watch := []
   veto : Bool := false
   mock : Bool := false
+  genIds : Bool := false        -- mockstore with NewID: an empty id is replaced by a generated one
+  gen : Nat := 0
   seeded : Bool := false        -- Init has run
 
 def aget (l : List (Bytes × Val)) (k : Bytes) : Option Val := vget l k
@@ -250,7 +252,7 @@ def run (st : St) (args : List Str) (impl : String) : St × String × String × 
         (st', "ok cbs=" ++ (if fresh.isEmpty then "-" else ";".intercalate ((fresh.map fun e => cbStr e.1 none (some e.2)))), "-", "init-first")
     else bad
   | [c, a] =>
-    if c = str "cfg" then ({ mock := a = str "mock" }, "ok", "-", "triv-cfg")
+    if c = str "cfg" then ({ mock := a = str "mock" ∨ a = str "mockid", genIds := a = str "mockid" }, "ok", "-", "triv-cfg")
     else if c = str "veto" then ({ st with veto := a = str "on" }, "ok", "-", "triv-veto")
     else if c = str "delete" then
       let (o, st', tag) := mutate st a .delete
@@ -268,8 +270,10 @@ def run (st : St) (args : List Str) (impl : String) : St × String × String × 
   | [c, id, k, g] =>
     let v : Val := ⟨k, g⟩
     if c = str "create" then
+      -- a store that generates ids does so for an empty id only (`NewID`, called before anything else)
+      let (st, id, gtag) := if st.genIds ∧ id.isEmpty then ({ st with gen := st.gen + 1 }, str s!"gen{st.gen + 1}", "-generated") else (st, id, "")
       let (o, st', tag) := mutate st id (.create v true)
-      (st', o, o, "create-" ++ tag)
+      (st', o, o, "create-" ++ tag ++ gtag)
     else if c = str "update" then
       let b := aget st.vals id
       let (o, st', tag) := mutate st id (.update v true)
